@@ -74,6 +74,82 @@ theorem transform_nothing_selected (r : Rec N) (p u : Node N) (d : Option (Node 
   simp only [callTransform, hcont, Bool.false_eq_true, if_false, evalM_bind, evalM_pure, hsel,
     arrayify, List.filterMap_nil, callTransform.go, untag_tag _ _ hclean]
 
+/-! ### the copy the transform works on -/
+
+mutual
+/-- a JSON value: no function anywhere inside -/
+def Plain : Val N → Prop
+  | .arr xs => PlainL xs
+  | .obj kvs => PlainKV kvs
+  | .null => True | .bool _ => True | .num _ => True | .str _ => True
+  | _ => False
+def PlainL : List (Val N) → Prop
+  | [] => True
+  | x :: xs => Plain x ∧ PlainL xs
+def PlainKV : List (String × Val N) → Prop
+  | [] => True
+  | (_, v) :: kvs => Plain v ∧ PlainKV kvs
+end
+
+mutual
+/-- **The transform's copy of a JSON value is that value** (member for member, element for element) -/
+theorem cloneVal_plain : ∀ (v : Val N), Plain v → cloneVal v = v
+  | .arr xs, h => by
+    simp only [cloneVal]; rw [cloneL_plain xs (by simpa [Plain] using h)]
+  | .obj kvs, h => by
+    simp only [cloneVal]; rw [cloneKV_plain kvs (by simpa [Plain] using h)]
+  | .null, _ => by simp [cloneVal]
+  | .bool _, _ => by simp [cloneVal]
+  | .num _, _ => by simp [cloneVal]
+  | .str _, _ => by simp [cloneVal]
+  | .builtin _, h => by simp [Plain] at h
+  | .lambda .., h => by simp [Plain] at h
+  | .partialFn .., h => by simp [Plain] at h
+  | .transformFn .., h => by simp [Plain] at h
+  | .chain .., h => by simp [Plain] at h
+  | .regexFn .., h => by simp [Plain] at h
+  | .matchNext _, h => by simp [Plain] at h
+theorem cloneL_plain : ∀ (xs : List (Val N)), PlainL xs → cloneL xs = xs
+  | [], _ => by simp [cloneL]
+  | x :: rest, h => by
+    have h' : Plain x ∧ PlainL rest := by simpa [PlainL] using h
+    simp only [cloneL]; rw [cloneVal_plain x h'.1, cloneL_plain rest h'.2]
+theorem cloneKV_plain : ∀ (kvs : List (String × Val N)), PlainKV kvs → cloneKV kvs = kvs
+  | [], _ => by simp [cloneKV]
+  | (k, v) :: rest, h => by
+    have h' : Plain v ∧ PlainKV rest := by simpa [PlainKV] using h
+    simp only [cloneKV]; rw [cloneVal_plain v h'.1, cloneKV_plain rest h'.2]
+end
+
+mutual
+/-- whatever is cloned, the copy is a JSON value (functions have become "") -/
+theorem cloneVal_isPlain : ∀ (v : Val N), Plain (cloneVal v)
+  | .arr xs => by simp only [cloneVal, Plain]; exact cloneL_isPlain xs
+  | .obj kvs => by simp only [cloneVal, Plain]; exact cloneKV_isPlain kvs
+  | .null => by simp [cloneVal, Plain]
+  | .bool _ => by simp [cloneVal, Plain]
+  | .num _ => by simp [cloneVal, Plain]
+  | .str _ => by simp [cloneVal, Plain]
+  | .builtin _ => by simp [cloneVal, Plain]
+  | .lambda .. => by simp [cloneVal, Plain]
+  | .partialFn .. => by simp [cloneVal, Plain]
+  | .transformFn .. => by simp [cloneVal, Plain]
+  | .chain .. => by simp [cloneVal, Plain]
+  | .regexFn .. => by simp [cloneVal, Plain]
+  | .matchNext _ => by simp [cloneVal, Plain]
+theorem cloneL_isPlain : ∀ (xs : List (Val N)), PlainL (cloneL xs)
+  | [] => by simp [cloneL, PlainL]
+  | x :: rest => by simp only [cloneL, PlainL]; exact ⟨cloneVal_isPlain x, cloneL_isPlain rest⟩
+theorem cloneKV_isPlain : ∀ (kvs : List (String × Val N)), PlainKV (cloneKV kvs)
+  | [] => by simp [cloneKV, PlainKV]
+  | (k, v) :: rest => by simp only [cloneKV, PlainKV]; exact ⟨cloneVal_isPlain v, cloneKV_isPlain rest⟩
+end
+
+/-- cloning twice is cloning once -/
+theorem cloneVal_idem (v : Val N) : cloneVal (cloneVal v) = cloneVal v :=
+  cloneVal_plain _ (cloneVal_isPlain v)
+
+
 /-! ### regenerated facts -/
 
 /-- every reflect / sort / rand / big mutator call site, keyed by (file, receiver type of the
